@@ -731,8 +731,17 @@ def _gate_content(ctx, m, rep, cl):
                where(fm), key=cl + ".mask-idiom|_is_mask")
         r = path.returned()
         leaves = {s for s in subterms(r) if s[0] in ("param", "global", "attr", "builtin", "unbound")} if r else set()
-        ok = path.kind == "return" and leaves <= {("param", fm.params[1])} and not list(path.calls())
+        real_calls = [e for e, ls in path.calls() if getattr(e, "origin", None) is None and not _is_inlined_helper_call(ctx, e.a, fm)]
+        ok = path.kind == "return" and leaves <= {("param", fm.params[1])} and not real_calls
         rep.ob(cl + ".mask-pure", fm.name, ok, "mask predicate is a call-free function of its integer argument only (leaves %s)" % sorted(show(x) for x in leaves), where(fm))
+
+
+def _is_inlined_helper_call(ctx, t, f):
+    """the call itself was replaced by the callee's body (helper inlining): it is not an effect of its own"""
+    for tt in ctx.G.resolve_callee(t[1], f):
+        if tt[0] == "func" and tt[1].qualname in ctx.helpers:
+            return True
+    return False
 
 
 def _comm(t, op):
@@ -932,7 +941,7 @@ def c17(ctx, rep):
                 line = wr[0].a[2][0]
                 r1 = ("call", ("attr", SELF, "_ip_to_str"), (key_t,), ())
                 r2 = ("call", ("attr", SELF, "_ip_to_str"), (val_t,), ())
-                okl = M.is_call(line) and line[1] == ("attr", ("const", "{}\t{}\n"), "format") and line[2] == (r1, r2)
+                okl = line == M.fstr(r1, "\t", r2, "\n")
                 rep.ob("C17.dump-line", fn.name, okl, "line is %s; expected '{}\\t{}\\n'.format(render(key), render(value))" % show(line), where(fn, wr[0].node), key="C17.dump-line|dump_to_file")
     # renderer: str(cls.make_addr_from_int(int(bits, 2))) — the family's own renderer
     fr = m.method(m.base, "_ip_to_str")
